@@ -654,13 +654,28 @@ class AtLeast(puan.Proposition):
             # than full len of propositions, then this
             # is a mixed of both
             if len(compounds) < len(self.propositions):
-                compounds.append(
-                    AtLeast(
-                        value=self.value,
-                        propositions=atoms,
-                        sign=self.sign,
+                if (self.value == 1) and all(map(lambda x: x.bounds.lower >= 0, atoms)):
+                    # at least one of non-negative terms: the atoms
+                    # can be negated together as one group
+                    compounds.append(
+                        AtLeast(
+                            value=self.value,
+                            propositions=atoms,
+                            sign=self.sign,
+                        )
                     )
-                )
+                elif all(map(lambda x: x.bounds.as_tuple() == (0,1), atoms)):
+                    # boolean atoms are negated one by one
+                    compounds.extend(
+                        map(
+                            lambda x: AtLeast(value=1, propositions=[x], sign=self.sign),
+                            atoms
+                        )
+                    )
+                else:
+                    # negation cannot be moved inwards for
+                    # integer atoms, keep the exact negation as is
+                    return negated
 
             negated.propositions = list(
                 map(
